@@ -222,5 +222,5 @@ def prop_config(case, ctx):
 
 
 SUBCHECKS = [
-    Sub("fault_enumeration", prop_config, strategy=configs, quick=8, thorough=120),
+    Sub("fault_enumeration", prop_config, strategy=configs, quick=20, thorough=200),
 ]
